@@ -811,6 +811,7 @@ impl LdapConnAsync {
                                     self.searchmap.remove(&msgid);
                                     let mut msgmap = self.msgmap.lock().expect("msgmap mutex (abandon)");
                                     msgmap.1.remove(&id);
+                                    msgmap.1.remove(&msgid);
                                     #[cfg(ldap3_verif)]
                                     crate::verif::id_event("IdRelease", id, msgmap.0, "abandon");
                                 },
